@@ -37,10 +37,22 @@ type simFSM struct {
 	cmds    [][]byte
 	updates int // number of Update calls over the life of this FSM value
 	reads   int
+	gate    chan struct{} // when set, Update waits for it to be closed
+	held    int           // number of Update calls waiting at the gate
 }
+
+func (f *simFSM) setGate(g chan struct{}) { f.mu.Lock(); f.gate = g; f.mu.Unlock() }
+func (f *simFSM) waiting() int            { f.mu.Lock(); defer f.mu.Unlock(); return f.held }
 
 func (f *simFSM) Update(cmd []byte) interface{} {
 	f.mu.Lock()
+	if g := f.gate; g != nil {
+		f.held++
+		f.mu.Unlock()
+		<-g
+		f.mu.Lock()
+		f.held--
+	}
 	defer f.mu.Unlock()
 	f.cmds = append(f.cmds, append([]byte{}, cmd...))
 	f.updates++
